@@ -293,6 +293,141 @@ let run_ops file =
     close_out oc
   | None -> ()
 
+(* ---- iorun: the byte-level Io model (Io.v) on the same op files.  Per op the API result in the
+   format of `run`; `iotrace on|off` / `iodrain` as the Rust runner (the fine I/O event list).
+   The record-level model (Model.step) runs alongside: results are compared per call and the Io
+   files with Layout.render of the record-level state at every `snap` and at the end; what does
+   not agree is written to $VERIF_IO_XCHECK. *)
+let io_file_name = function Io.FKey -> "key" | Io.FVal -> "val" | Io.FHtx -> "htx"
+let io_event (e : Io.ev) : string =
+  match e with
+  | Io.EvSeek (f, t) -> Printf.sprintf "%s:s:%s" (io_file_name f) (decimal_of_n t)
+  | Io.EvRead (f, p, l) -> Printf.sprintf "%s:r:%s:%s" (io_file_name f) (decimal_of_n p) (decimal_of_n l)
+  | Io.EvWrite (f, p, l) -> Printf.sprintf "%s:w:%s:%s" (io_file_name f) (decimal_of_n p) (decimal_of_n l)
+  | Io.EvSetLen (f, l) -> Printf.sprintf "%s:l:%s" (io_file_name f) (decimal_of_n l)
+  | Io.EvFlush f -> Printf.sprintf "%s:f" (io_file_name f)
+
+let io_run_ops file =
+  let ic = open_in file in
+  let w = ref world0 in
+  let maps : (string, (Io.mp * string * string)) Hashtbl.t = Hashtbl.create 8 in   (* mid -> state, dir, name *)
+  let dbdirs : (string, string) Hashtbl.t = Hashtbl.create 4 in
+  let tracing = ref false in
+  let pending : string list ref = ref [] in      (* events since the last drain, newest first *)
+  let xc = Buffer.create 256 in
+  let n_api = ref 0 and n_api_bad = ref 0 and n_render = ref 0 and n_render_bad = ref 0 in
+  let sum b = Printf.sprintf "%d:%x" (List.length b) (fnv b) in
+  let collect mid (m : Io.mp) =
+    let (evs, m') = Io.drain m in
+    (if !tracing then pending := List.rev_append (List.map io_event evs) !pending);
+    (match Hashtbl.find_opt maps mid with Some (_, d, nm) -> Hashtbl.replace maps mid (m', d, nm) | None -> ());
+    m' in
+  let render_check why =
+    Hashtbl.iter (fun mid (m, _, _) ->
+      match store_at !w (id_of ("m:" ^ mid)) with
+      | Some s ->
+        incr n_render;
+        let ((ih, ik), iv) = Io.images m in
+        (match render s with
+         | Ok ((rh, rk), rv) ->
+           if not (ih = rh && ik = rk && iv = rv) then begin
+             incr n_render_bad;
+             Buffer.add_string xc (Printf.sprintf "render_differs %s map=%s io=(%s %s %s) render=(%s %s %s)\n" why mid (sum ih) (sum ik) (sum iv) (sum rh) (sum rk) (sum rv))
+           end
+         | _ -> incr n_render_bad; Buffer.add_string xc (Printf.sprintf "render_failed %s map=%s\n" why mid))
+      | None -> ()) maps in
+  let lineno = ref 0 in
+  let record_level line (mine : string) =
+    (* the same call on the record-level model *)
+    match parse line with
+    | Op o | Flavoured (o, _) ->
+      let fl = (match parse line with Flavoured (_, f) -> f | _ -> FIter) in
+      let (w', r) = step !w o in
+      (if Sys.getenv_opt "VERIF_FEATURES" <> None then (try observe !w w' o with _ -> ()));
+      w := w';
+      let theirs = print_out fl r in
+      incr n_api;
+      if theirs <> mine then begin
+        incr n_api_bad;
+        Buffer.add_string xc (Printf.sprintf "api_differs line=%d op=%s io=%s record=%s\n" !lineno (String.sub line 0 (min 60 (String.length line))) (String.sub mine 0 (min 200 (String.length mine))) (String.sub theirs 0 (min 200 (String.length theirs))))
+      end
+    | Skip _ -> () in
+  let of_res : 'a. 'a res -> ('a -> string) -> string = fun r f ->
+    match r with Ok a -> f a | Panic t -> "panic:" ^ tagname t | IoErr -> "err" | OutOfFuel -> "hang" in
+  (try
+     while true do
+       let line = String.trim (input_line ic) in
+       if line <> "" && line.[0] <> '#' then begin
+         incr lineno;
+         let t = List.filter (fun s -> s <> "") (String.split_on_char ' ' line) in
+         let a i = List.nth t i in
+         let on_map f =
+           match Hashtbl.find_opt maps (a 1) with
+           | Some (m, _, _) -> let out = f (a 1) m in record_level line out; out
+           | None -> "nohandle" in
+         let out =
+           match a 0 with
+           | "db" -> Hashtbl.replace dbdirs (a 1) (a 2); record_level line "ok"; "ok"
+           | "map" ->
+             let p = parse_params (a 5) in
+             let bk = function BAuto -> Io.BufAuto | _ -> Io.BufSized in
+             if Hashtbl.fold (fun _ (_, d, nm) acc -> acc || (d = Hashtbl.find dbdirs (a 2) && nm = a 4)) maps false then "unsupported:reopen"
+             else
+             (match buckets_of_param p.p_buckets with
+              | Ok nb ->
+                of_res (Io.create (parse_kt (a 3)) nb (bk p.p_key) (bk p.p_val) (bk p.p_htx)) (fun m ->
+                  Hashtbl.replace maps (a 1) (m, Hashtbl.find dbdirs (a 2), a 4);
+                  ignore (collect (a 1) m); record_level line "ok"; "ok")
+              | Panic tg -> "panic:" ^ tagname tg | _ -> "err")
+           | "put" -> on_map (fun mid m -> of_res (Io.put m (unhex (a 2)) (unhex (a 3))) (fun m' -> ignore (collect mid m'); "ok"))
+           | "get" -> on_map (fun mid m -> of_res (Io.get m (unhex (a 2))) (fun (o, m') -> ignore (collect mid m'); print_out FIter (ROpt o)))
+           | "del" -> on_map (fun mid m -> of_res (Io.del m (unhex (a 2))) (fun (o, m') -> ignore (collect mid m'); print_out FIter (ROpt o)))
+           | "has" -> on_map (fun mid m -> of_res (Io.has m (unhex (a 2))) (fun (b, m') -> ignore (collect mid m'); print_out FIter (RBool b)))
+           | "len" -> on_map (fun mid m -> of_res (Io.len m) (fun (c, m') -> ignore (collect mid m'); print_out FIter (RNum c)))
+           | "empty" -> on_map (fun mid m -> of_res (Io.len m) (fun (c, m') -> ignore (collect mid m'); print_out FIter (RBool (c = N0))))
+           | "iter" ->
+             let fl = parse_flavour (a 2) in
+             on_map (fun mid m -> of_res (Io.iter_run m) (fun (((items, h), ex), m') -> ignore (collect mid m'); print_out fl (RIter (items, h, ex))))
+           | "stats" -> on_map (fun mid m -> of_res (Io.stats_of m) (fun (st, m') -> ignore (collect mid m'); print_out FIter (RStats st)))
+           | "iotrace" -> tracing := (a 1 = "on"); pending := []; "ok"
+           | "iodrain" -> let l = List.rev !pending in pending := []; String.concat " " ("io" :: l)
+           | "closeall" | "drop" | "dropdb" -> render_check (Printf.sprintf "line=%d" !lineno); record_level line "ok"; "ok"
+           | "snap" ->
+             render_check (Printf.sprintf "line=%d" !lineno);
+             incr snapno;
+             let l = Hashtbl.fold (fun _ (m, d, nm) acc -> if d = a 1 then (nm, m) :: acc else acc) maps [] in
+             let l = List.sort (fun (x, _) (y, _) -> compare x y) l in
+             "snap" ^ String.concat "" (List.map (fun (nm, m) ->
+               let ((h, k), v) = Io.images m in
+               (match !dumpdir with
+                | Some d ->
+                  let dir = Printf.sprintf "%s/snap%d" d !snapno in
+                  (try Unix.mkdir dir 0o755 with _ -> ());
+                  write_file (dir ^ "/" ^ nm ^ ".htx") h; write_file (dir ^ "/" ^ nm ^ ".key") k; write_file (dir ^ "/" ^ nm ^ ".val") v
+                | None -> ());
+               Printf.sprintf " %s.htx=%s %s.key=%s %s.val=%s" nm (sum h) nm (sum k) nm (sum v)) l)
+           | other -> "skip:" ^ other in
+         print_endline out;
+         Stdlib.flush stdout
+       end
+     done
+   with End_of_file -> ());
+  close_in ic;
+  render_check "end";
+  (match Sys.getenv_opt "VERIF_FEATURES" with
+   | Some path ->
+     let oc = open_out path in
+     Hashtbl.iter (fun k v -> Printf.fprintf oc "%s %d\n" k v) features;
+     close_out oc
+   | None -> ());
+  match Sys.getenv_opt "VERIF_IO_XCHECK" with
+  | Some path ->
+    let oc = open_out path in
+    Printf.fprintf oc "summary api_calls=%d api_differ=%d render_checks=%d render_differ=%d\n" !n_api !n_api_bad !n_render !n_render_bad;
+    output_string oc (Buffer.contents xc);
+    close_out oc
+  | None -> ()
+
 (* sizing digests: the same lines as `harness sizing-val` / `sizing-key-sweep` *)
 let sizing_val max =
   let last = ref (-1, -1) in
@@ -533,6 +668,9 @@ let lossy_file file =
 
 let () =
   match Array.to_list Sys.argv with
+  | _ :: "iorun" :: file :: rest ->
+    (match rest with "--dump" :: d :: _ -> dumpdir := Some d | _ -> ());
+    io_run_ops file
   | [ _; "load"; dir; name ] -> load_files dir name
   | [ _; "rabuf"; file ] -> rabuf file
   | [ _; "lossy"; file ] -> lossy_file file
